@@ -2,6 +2,7 @@
 import r_nl
 import r_raw
 import r_guard
+import r_layout
 
 EXPLANATION = (
     "A-WHO + constant audit over stylua_lib in every feature configuration: TokenType::Whitespace is constructed only "
@@ -24,4 +25,4 @@ ASSUMPTIONS = ["full_moon::TokenType::spaces/tabs produce exactly n spaces / tab
 
 
 def run(ctx):
-    return [r_nl.rule_nl(ctx, "C10"), r_raw.rule_raw(ctx, "C10"), r_raw.rule_sanitiser(ctx, "C10"), r_guard.rule_guard(ctx, "C10")]
+    return [r_nl.rule_nl(ctx, "C10"), r_raw.rule_raw(ctx, "C10"), r_raw.rule_sanitiser(ctx, "C10"), r_guard.rule_guard(ctx, "C10"), r_layout.rule_builder(ctx, "C10")]
